@@ -113,6 +113,11 @@ impl Prop for C01 {
         }
         let chg = FileChange { old_path: path.clone(), new_path: path.clone(), old: a.clone(), new: b.clone(), old_mode: None, new_mode: None, rename: false };
         let mut fp = build_file_patch(ch, &d, &chg, &ops, c, merge);
+        if ch.chance(1, 6) {
+            for h in fp.hunks.iter_mut() {
+                h.localised_marker = true;
+            }
+        }
         // known-finding steering
         if is_pure_single_ctx0(&fp.hunks) && a.as_ref().map_or(false, |x| !x.is_empty()) && b.as_ref().map_or(false, |x| !x.is_empty()) {
             if !cx.feature("KF-C01-ctx0-single-pure-hunk") {
